@@ -974,6 +974,9 @@ def scenario_from_trace(steps, capv, handler):
                 if out[i]['do'] == 'emit':
                     accepted_idx.append(i)
                     break
+        if capv == 0 and st['kind'] == 'load' and st['thread'].startswith('W') and st['out'] == 'false' and 'stop' in st['op']:
+            # rendezvous replays: the worker passed its stop check - let it get to the scheduling point before the next step
+            out.append({'do': 'wait_at_point'})
         if st['kind'] == 'recv_register':
             out.append({'do': 'park'})
         if st['kind'] == 'recv' and st['out'] == 'some':
